@@ -247,6 +247,8 @@ PRESERVE_REFUSALS = [
     ("unused-underscore:variable-preserved", "fixes.undefine_unused_variables", "someValue = 1\n", ["someValue"], "someValue = 1"),
     ("duplicate-merge:removed-name-preserved", "fixes.remove_duplicate_functions", F1.format(a="f", b="g") + "print(f(1), g(2))\n", ["g"], "def g(x)"),
     ("duplicate-merge:both-names-preserved", "fixes.remove_duplicate_functions", F1.format(a="f", b="g") + "print(f(1), g(2))\n", ["f", "g"], "def g(x)"),
+    ("duplicate-merge:both-names-preserved-neither-used-in-the-module", "fixes.remove_duplicate_functions", F1.format(a="f", b="g"), ["f", "g"], "def g(x)"),
+    ("duplicate-merge:three-copies-two-preserved-none-used-in-the-module", "fixes.remove_duplicate_functions", F1.format(a="f", b="g") + "\n\n" + F1.format(a="h", b="k"), ["g", "k"], "def k(x)"),
     ("unused-self:method-preserved", "object_oriented.remove_unused_self_cls", LIBK, ["to_celsius"], "def to_celsius("),
 ]
 
